@@ -238,8 +238,11 @@ theorem kv_buildCond {w w' : World Rat} {c : CExpr Rat} {i : CondId} (h : w.buil
 /-! ### class B: code that may schedule for a later date -/
 
 /-- one backward step for a class B goal `KExt k0 (f w ..).kv`: the lemma of `f` (extended below, lemma by lemma) -/
-syntax "kx_apply" : tactic
-macro_rules | `(tactic| kx_apply) => `(tactic| fail "no class B lemma applies")
+elab "kx_apply" : tactic => viewApply "_kext"
+
+/-- lemmas of functions that return `Option (World _)`: applied to a hypothesis `_ = some w'` (rules added below) -/
+syntax "kx_hyp" : tactic
+macro_rules | `(tactic| kx_hyp) => `(tactic| fail "no hypothesis lemma applies")
 
 /-- backward chaining for class B goals from a hypothesis `h : KExt k0 w.kv` -/
 syntax "kx " ident : tactic
@@ -253,6 +256,7 @@ macro_rules
       | (rw [kv_foldl _ (by intro w x; simp [World.kv])])
       | (have hfst := congrArg Prod.fst ‹_ = (_, _)›; dsimp only at hfst; subst hfst)
       | (refine schedule_kext ‹_ = some _› ?_)
+      | kx_hyp
       | kx_apply
       | split
       | (dsimp only; split))))
@@ -263,7 +267,7 @@ theorem ensureTrigger_kext {k0 : KV} {c : CondId} {w w' : World Rat} (h : w.ensu
   split at h
   · exact schedule_kext h (by first | exact h0 | simpa [kv] using h0)
   · cases h; exact h0
-macro_rules | `(tactic| kx_apply) => `(tactic| refine ensureTrigger_kext ‹_ = some _› ?_)
+macro_rules | `(tactic| kx_hyp) => `(tactic| refine ensureTrigger_kext ‹_ = some _› ?_)
 
 theorem subscribe_kext {k0 : KV} {c : CondId} {a : ActId} {s : SigId} {w w' : World Rat} (h : w.subscribe c a s = some w')
     (h0 : KExt k0 w.kv) : KExt k0 w'.kv := by
@@ -284,19 +288,16 @@ theorem subscribe_kext {k0 : KV} {c : CondId} {a : ActId} {s : SigId} {w w' : Wo
         obtain ⟨w1, h1, rfl⟩ := h
         simpa [kv] using ensureTrigger_kext h1 h0
   · cases h; simpa [kv] using h0
-macro_rules | `(tactic| kx_apply) => `(tactic| refine subscribe_kext ‹_ = some _› ?_)
+macro_rules | `(tactic| kx_hyp) => `(tactic| refine subscribe_kext ‹_ = some _› ?_)
 
 theorem doSuspend_kext {k0 : KV} (a : ActId) (fs : List (Frame Rat)) (wh : When Rat) (h0 : KExt k0 w.kv) :
     KExt k0 (w.doSuspend a fs wh).kv := by unfold doSuspend; kx h0
-macro_rules | `(tactic| kx_apply) => `(tactic| apply doSuspend_kext)
 
 theorem doNotifAwait_kext {k0 : KV} (a : ActId) (fs : List (Frame Rat)) (c : CondId) (h0 : KExt k0 w.kv) :
     KExt k0 (w.doNotifAwait a fs c).kv := by unfold doNotifAwait; kx h0
-macro_rules | `(tactic| kx_apply) => `(tactic| apply doNotifAwait_kext)
 
 theorem doCondAwait_kext {k0 : KV} (a : ActId) (fs : List (Frame Rat)) (c : CondId) (h0 : KExt k0 w.kv) :
     KExt k0 (w.doCondAwait a fs c).kv := by unfold doCondAwait; kx h0
-macro_rules | `(tactic| kx_apply) => `(tactic| apply doCondAwait_kext)
 
 /-! ### Run.lean: helpers -/
 kvlemma kv_lockRelease (l : Name) : w.lockRelease l := by unfold lockRelease; kv_a
@@ -307,13 +308,10 @@ kvlemma kv_continueClose (a : ActId) (fs : List (Frame Rat)) (s : ScopeId) (todo
 
 theorem queueGetEnter_kext {k0 : KV} (a : ActId) (fs : List (Frame Rat)) (q : Name) (h0 : KExt k0 w.kv) :
     KExt k0 (w.queueGetEnter a fs q).kv := by unfold queueGetEnter; kx h0
-macro_rules | `(tactic| kx_apply) => `(tactic| apply queueGetEnter_kext)
 theorem lockAcquired_kext {k0 : KV} (a : ActId) (fs : List (Frame Rat)) (l : Name) (c : LockCont Rat) (h0 : KExt k0 w.kv) :
     KExt k0 (w.lockAcquired a fs l c).kv := by unfold lockAcquired; kx h0
-macro_rules | `(tactic| kx_apply) => `(tactic| apply lockAcquired_kext)
 theorem acquireLock_kext {k0 : KV} (a : ActId) (fs : List (Frame Rat)) (l : Name) (c : LockCont Rat) (h0 : KExt k0 w.kv) :
     KExt k0 (w.acquireLock a fs l c).kv := by unfold acquireLock; kx h0
-macro_rules | `(tactic| kx_apply) => `(tactic| apply acquireLock_kext)
 
 theorem kv_foldl_awake (l : List CondId) : (l.foldl (fun (w : World Rat) c => if w.eval c then w.awakeAll c else w) w).kv = w.kv :=
   kv_foldl _ (by intro w x; split <;> simp [kv]) l w
@@ -326,14 +324,11 @@ kvlemma kv_pipeFinish (p : Name) (i : Nat) : w.pipeFinish p i := by unfold pipeF
 
 theorem pipeWindowStart_kext {k0 : KV} (a : ActId) (fs : List (Frame Rat)) (p : Name) (i : Nat) (t1 t2 t3 : Rat) (h0 : KExt k0 w.kv) :
     KExt k0 (w.pipeWindowStart a fs p i t1 t2 t3).kv := by unfold pipeWindowStart; kx h0
-macro_rules | `(tactic| kx_apply) => `(tactic| apply pipeWindowStart_kext)
 theorem tickNext_kext {k0 : KV} (a : ActId) (fs : List (Frame Rat)) (b : Bool) (p l : Rat) (n : Nat) (body : List (Stmt Rat))
     (h0 : KExt k0 w.kv) : KExt k0 (w.tickNext a fs b p l n body).kv := by unfold tickNext; kx h0
-macro_rules | `(tactic| kx_apply) => `(tactic| apply tickNext_kext)
 theorem borrowEnter_kext {k0 : KV} (a : ActId) (fs : List (Frame Rat)) (r : Name) (am : List Int) (bind : Name)
     (body : List (Stmt Rat)) (c : Bool) (h0 : KExt k0 w.kv) : KExt k0 (w.borrowEnter a fs r am bind body c).kv := by
   unfold borrowEnter; kx h0
-macro_rules | `(tactic| kx_apply) => `(tactic| apply borrowEnter_kext)
 
 /-! ### Run.lean: the SimPy layer -/
 kvlemma kv_setPyEv (e : Nat) (f : PyEvent → PyEvent) : w.setPyEv e f := rfl
@@ -351,12 +346,10 @@ kvlemma kv_pyInterrupt (p : Nat) (c : Int) : w.pyInterrupt p c := by unfold pyIn
 kvlemma kv_pySync (a : ActId) (lbl : Int) (i : PyInstr Rat) : (w.pySync a lbl i).1 := by unfold pySync; kv_a
 theorem pyWaitInterruptible_kext {k0 : KV} (a : ActId) (fs : List (Frame Rat)) (p e : Nat) (h0 : KExt k0 w.kv) :
     KExt k0 (w.pyWaitInterruptible a fs p e).kv := by unfold pyWaitInterruptible; kx h0
-macro_rules | `(tactic| kx_apply) => `(tactic| apply pyWaitInterruptible_kext)
 kvlemma kv_pyResume (a : ActId) (fs : List (Frame Rat)) (p : Nat) (what : List Int) (e : Option ExnId) :
     w.pyResume a fs p what e := by unfold pyResume; kv_a
 theorem pyCheckContinue_kext {k0 : KV} (a : ActId) (fs : List (Frame Rat)) (e : Nat) (un : List Nat) (obs : Nat) (h0 : KExt k0 w.kv) :
     KExt k0 (w.pyCheckContinue a fs e un obs).kv := by unfold pyCheckContinue; kx h0
-macro_rules | `(tactic| kx_apply) => `(tactic| apply pyCheckContinue_kext)
 kvlemma kv_pyCondFail (a : ActId) (fs : List (Frame Rat)) (e m : Nat) : w.pyCondFail a fs e m := by unfold pyCondFail; kv_a
 kvlemma kv_pyGenStep (a : ActId) (fs : List (Frame Rat)) (p : Nat) : w.pyGenStep a fs p := by unfold pyGenStep; kv_a
 end World
